@@ -502,6 +502,13 @@ var blobNamePool = [][]string{
 	{"reg.example/lib/model:v2", "Reg.Example/lib/Model:V2", "REG.EXAMPLE/LIB/MODEL:v2"},
 }
 
+// blobNamePoolPorts: two *different* names (a registry with a port, and a host spelled with an
+// underscore) that differ in one character of the kind a name-to-path mapping might rewrite.
+var blobNamePoolPorts = [][]string{
+	{"reg:5000/lib/model:latest", "REG:5000/Lib/MODEL:Latest", "reg:5000/LIB/model:LATEST"},
+	{"reg_5000/lib/model:latest", "Reg_5000/lib/Model:Latest", "REG_5000/LIB/MODEL:latest"},
+}
+
 // drawPlan draws the whole case on the controller, so that the workload does
 // not depend on the schedule (only read sizes are drawn on the fly).
 func (w *blobWorld) drawPlan() {
@@ -552,8 +559,12 @@ func (w *blobWorld) drawPlan() {
 		}
 	}
 	nn := 1 + D("nn", 2)
+	pool := blobNamePool
+	if D("name-pool", 3) == 0 {
+		pool = blobNamePoolPorts
+	}
 	for i := 0; i < nn; i++ {
-		w.names = append(w.names, &nameModel{idx: i, variants: blobNamePool[i], poss: map[string]bool{"": true}, past: map[string]bool{}})
+		w.names = append(w.names, &nameModel{idx: i, variants: pool[i], poss: map[string]bool{"": true}, past: map[string]bool{}})
 	}
 	ownedD := func(wi int) []int {
 		var out []int
